@@ -25,10 +25,11 @@ CONSTANTS NG, NO, ND, NP,     \* slot counts
 VARIABLES mem, kids, pg, reg, fnode, flink, fpg, held, mode, last,
           dirty,   \* data slots left half-written by a failed operation (node without values, not linked yet)
           fopt,    \* per stored node: are the optional scalar attributes present (a foreign writer may omit them)
-          saved    \* save_as was used (at most once per behaviour)
-vw   == <<mem, kids, pg, reg, fnode, flink, fpg, held, mode, dirty, fopt, saved>>
-vars == <<mem, kids, pg, reg, fnode, flink, fpg, held, mode, dirty, fopt, saved, last>>
-Aux  == <<dirty, fopt, saved>>
+          saved,   \* save_as was used (at most once per behaviour)
+          w2, w2pg \* a second workspace (always open r+), target of cross-workspace copies: stored entities / property groups
+vw   == <<mem, kids, pg, reg, fnode, flink, fpg, held, mode, dirty, fopt, saved, w2, w2pg>>
+vars == <<mem, kids, pg, reg, fnode, flink, fpg, held, mode, dirty, fopt, saved, w2, w2pg, last>>
+Aux  == <<dirty, fopt, saved, w2, w2pg>>
 
 Root == 0
 GS == 1..NG
@@ -37,6 +38,13 @@ DS == 21..(20 + ND)
 PS == 31..(30 + NP)
 ES == GS \cup OS \cup DS
 Cont == {Root} \cup GS \cup OS
+\* identifiers in the second workspace: 1000 + 100*g + s, g = 0: the uid of slot s was free there and is kept,
+\* g = 1: a fresh uid (second copy of the same entity); 1000 is its root
+W2(s, g) == 1000 + 100 * g + s
+W2Root == 1000
+W2E == {W2(s, g) : s \in ES, g \in {0, 1}}
+W2P == {W2(p, g) : p \in PS, g \in {0, 1}}
+NoW2 == [on |-> FALSE, par |-> -1, name |-> "", flag |-> FALSE, val |-> 0]
 Kind(s) == IF s \in GS THEN "G" ELSE IF s \in OS THEN "O" ELSE IF s \in DS THEN "D" ELSE "R"
 
 NoMem  == [par |-> -1, name |-> "", flag |-> FALSE, val |-> 0]
@@ -112,6 +120,8 @@ Init ==
     /\ dirty = {}
     /\ fopt = [s \in ES |-> TRUE]
     /\ saved = FALSE
+    /\ w2 = [y \in W2E |-> NoW2]
+    /\ w2pg = [q \in W2P |-> NoPG]
     /\ last = [act |-> "Init", args |-> [x |-> 0], out |-> "ok", foot |-> {}]
 
 \* ======================= creation
@@ -126,37 +136,49 @@ Birth(s, p, n, v) ==
     /\ fopt' = [fopt EXCEPT ![s] = TRUE]
 
 CreateGroup(p, n) ==
-    /\ Do("CreateGroup") /\ Writable /\ p \in Att \cap ({Root} \cup GS) /\ FreeSet(GS) # {}
+    /\ Do("CreateGroup") /\ Writable /\ p \in Att \cap ({Root} \cup GS) /\ p \notin dirty /\ FreeSet(GS) # {}
     /\ LET s == Lowest(FreeSet(GS)) IN
          /\ Birth(s, p, n, 0)
          /\ Ok("CreateGroup", [s |-> s, p |-> p, n |-> n], {s, p})
-    /\ UNCHANGED <<pg, fpg, held, mode, dirty, saved>>
+    /\ UNCHANGED <<pg, fpg, held, mode, dirty, saved, w2, w2pg>>
 
 CreateObject(p, n) ==
-    /\ Do("CreateObject") /\ Writable /\ p \in Att \cap ({Root} \cup GS) /\ FreeSet(OS) # {}
+    /\ Do("CreateObject") /\ Writable /\ p \in Att \cap ({Root} \cup GS) /\ p \notin dirty /\ FreeSet(OS) # {}
     /\ LET s == Lowest(FreeSet(OS)) IN
          /\ Birth(s, p, n, 0)
          /\ Ok("CreateObject", [s |-> s, p |-> p, n |-> n], {s, p})
-    /\ UNCHANGED <<pg, fpg, held, mode, dirty, saved>>
+    /\ UNCHANGED <<pg, fpg, held, mode, dirty, saved, w2, w2pg>>
 
 AddData(o, n, v) ==                                \* ObjectBase.add_data (object_base.py:125-180)
     /\ Do("AddData") /\ Writable /\ o \in Att \cap OS /\ FreeSet(DS) # {}
     /\ LET s == Lowest(FreeSet(DS)) IN
          /\ Birth(s, o, n, v)
          /\ Ok("AddData", [s |-> s, p |-> o, n |-> n, v |-> v], {s, o})
-    /\ UNCHANGED <<pg, fpg, held, mode, dirty, saved>>
+    /\ UNCHANGED <<pg, fpg, held, mode, dirty, saved, w2, w2pg>>
+
+\* Workspace.create_entity(..., save_on_creation=False): the entity exists in memory only; the final save of
+\* Workspace.close (root subtree, add_children=True) writes and links it (workspace.py:196,477-478)
+CreateDeferred(p, n) ==
+    /\ Do("CreateDeferred") /\ Writable /\ p \in Att \cap ({Root} \cup GS) /\ p \notin dirty /\ FreeSet(GS) # {} /\ dirty = {}
+    /\ LET s == Lowest(FreeSet(GS)) IN
+         /\ mem' = [mem EXCEPT ![s] = [par |-> p, name |-> n, flag |-> TRUE, val |-> 0]]
+         /\ kids' = [kids EXCEPT ![p] = @ \cup {s}]
+         /\ reg' = [reg EXCEPT ![s] = "live"]
+         /\ dirty' = dirty \cup {s}
+         /\ Ok("CreateDeferred", [s |-> s, p |-> p, n |-> n], {})
+    /\ UNCHANGED <<pg, fpg, fnode, flink, held, mode, fopt, saved, w2, w2pg>>
 
 \* explicit identifier (C06): refused when the uid is in use by any live entity of any kind
 \* (workspace.py create_entity pre-check + weakref_utils.insert_once); accepted when the uid is free again
 CreateWithUid(u, p, n) ==
-    /\ Do("CreateWithUid") /\ Writable /\ u \in GS \cup OS /\ p \in Att \cap ({Root} \cup GS)
+    /\ Do("CreateWithUid") /\ Writable /\ u \in GS \cup OS /\ p \in Att \cap ({Root} \cup GS) /\ p \notin dirty
     /\ IF Live(u)
        THEN /\ Refused("CreateWithUid", [s |-> u, p |-> p, n |-> n], "RuntimeError")
             /\ UNCHANGED <<mem, kids, pg, reg, fnode, flink, fpg, held, mode, Aux>>
        ELSE /\ ~fnode[u].on /\ u \notin held /\ \A l \in flink : l[1] # u /\ l[2] # u
             /\ Birth(u, p, n, 0)
             /\ Ok("CreateWithUid", [s |-> u, p |-> p, n |-> n], {u, p})
-            /\ UNCHANGED <<pg, fpg, held, mode, dirty, saved>>
+            /\ UNCHANGED <<pg, fpg, held, mode, dirty, saved, w2, w2pg>>
 
 \* ======================= write-through setters
 \* Entity.name / allow_delete setters -> Workspace.update_attribute -> H5Writer.update_field
@@ -167,7 +189,7 @@ Rename(s, n) ==
     /\ fnode' = [fnode EXCEPT ![s].name = n]
     /\ fopt' = [fopt EXCEPT ![s] = TRUE]      \* H5Writer.write_attributes rewrites every scalar attribute (h5_writer.py:303-361)
     /\ Ok("Rename", [s |-> s, n |-> n], {s})
-    /\ UNCHANGED <<kids, pg, reg, flink, fpg, held, mode, dirty, saved>>
+    /\ UNCHANGED <<kids, pg, reg, flink, fpg, held, mode, dirty, saved, w2, w2pg>>
 
 SetFlag(s, b) ==                                   \* allow_delete
     /\ Do("SetFlag") /\ Writable /\ s \in Att \cap ES /\ mem[s].flag # b /\ s \notin dirty
@@ -175,7 +197,7 @@ SetFlag(s, b) ==                                   \* allow_delete
     /\ fnode' = [fnode EXCEPT ![s].flag = b]
     /\ fopt' = [fopt EXCEPT ![s] = TRUE]
     /\ Ok("SetFlag", [s |-> s, b |-> b], {s})
-    /\ UNCHANGED <<kids, pg, reg, flink, fpg, held, mode, dirty, saved>>
+    /\ UNCHANGED <<kids, pg, reg, flink, fpg, held, mode, dirty, saved, w2, w2pg>>
 
 SetVal(d, v) ==                                    \* Data.values setter (data/data.py, numeric_data.py)
     /\ Do("SetVal") /\ Writable /\ d \in Att \cap DS /\ mem[d].val # v /\ d \notin dirty
@@ -190,7 +212,7 @@ SetVal(d, v) ==                                    \* Data.values setter (data/d
 \* scrubbed from that object's property groups (object_base.py:497-523).
 Move(s, p) ==
     /\ Do("Move") /\ Writable /\ s \in Att \cap ES /\ Sub(s) \cap dirty = {}
-    /\ p \in Att /\ p # mem[s].par /\ p \notin Sub(s)
+    /\ p \in Att /\ p # mem[s].par /\ p \notin Sub(s) /\ p \notin dirty
     /\ IF s \in DS THEN p \in OS ELSE p \in {Root} \cup GS
     /\ LET old == mem[s].par IN
          /\ mem' = [mem EXCEPT ![s].par = p]
@@ -222,7 +244,7 @@ AddDataFails(o, n) ==
          /\ fopt' = [fopt EXCEPT ![s] = TRUE]
          /\ dirty' = dirty \cup {s}
          /\ last' = [act |-> "AddDataFails", args |-> [s |-> s, p |-> o, n |-> n], out |-> "ValueError", foot |-> {s}]
-    /\ UNCHANGED <<pg, fpg, flink, held, mode, saved>>
+    /\ UNCHANGED <<pg, fpg, flink, held, mode, saved, w2, w2pg>>
 
 \* a foreign writer (or an older version) may omit optional scalar attributes of a node: the harness strips them with
 \* raw h5py while the workspace is closed.  Nothing but a rewrite of that node's attributes may bring them back (C09).
@@ -230,7 +252,7 @@ StripOpt(s) ==
     /\ Do("StripOpt") /\ mode = "closed" /\ s \in ES /\ fnode[s].on /\ fopt[s] /\ s \in FReach
     /\ fopt' = [fopt EXCEPT ![s] = FALSE]
     /\ Ok("StripOpt", [s |-> s], {s})
-    /\ UNCHANGED <<mem, kids, pg, reg, fnode, flink, fpg, held, mode, dirty, saved>>
+    /\ UNCHANGED <<mem, kids, pg, reg, fnode, flink, fpg, held, mode, dirty, saved, w2, w2pg>>
 
 \* ======================= property groups
 \* ObjectBase.add_data_to_group(data, name): find the group by name or create it, add the data
@@ -345,6 +367,16 @@ RemoveViaParent(s) ==
          /\ Ok("RemoveViaParent", [s |-> s], {par})
     /\ UNCHANGED <<mem, reg, fnode, mode, Aux>>
 
+\* ObjectBase.remove_data_from_groups([d1, d2]) (object_base.py:630-648): every group of the object loses both
+ScrubData(o, ds) ==
+    /\ Do("ScrubData") /\ Writable /\ o \in Att \cap OS /\ ds \subseteq kids[o] \cap DS /\ Cardinality(ds) = 2
+    /\ ds \cap dirty = {}
+    /\ \E p \in PGsOf(o) : pg[p].props \cap ds # {}
+    /\ pg' = [q \in PS |-> IF pg[q].owner = o THEN Scrub(pg, ds)[q] ELSE pg[q]]
+    /\ fpg' = [q \in PS |-> IF fpg[q].owner = o THEN Scrub(fpg, ds)[q] ELSE fpg[q]]
+    /\ Ok("ScrubData", [o |-> o, ds |-> ds], {o})
+    /\ UNCHANGED <<mem, kids, reg, fnode, flink, held, mode, Aux>>
+
 RemovePG(p) ==                                     \* ws.remove_entity(property_group)
     /\ Do("RemovePG") /\ Writable /\ p \in PS /\ pg[p].owner \in Att
     /\ pg' = [pg EXCEPT ![p] = NoPG] /\ fpg' = [fpg EXCEPT ![p] = NoPG]
@@ -358,7 +390,7 @@ RemovePG(p) ==                                     \* ws.remove_entity(property_
 Copy(s, p, deep) ==
     /\ Do("Copy") /\ Writable /\ s \in Att \cap ES /\ p \in Att /\ Sub(s) \cap dirty = {}
     /\ IF s \in DS THEN p \in OS /\ deep ELSE p \in {Root} \cup GS
-    /\ p \notin Sub(s)
+    /\ p \notin Sub(s) /\ p \notin dirty
     /\ LET S == IF deep THEN Sub(s) ELSE {s}
            SP == IF deep THEN {q \in PS : pg[q].owner \in S} ELSE {}
        IN
@@ -389,7 +421,46 @@ Copy(s, p, deep) ==
                                    ELSE fpg[r]]
           /\ fopt' = [y \in ES |-> IF y \in New THEN TRUE ELSE fopt[y]]
           /\ Ok("Copy", [s |-> s, p |-> p, deep |-> deep, map |-> f, pmap |-> fp], New \cup {p})
-    /\ UNCHANGED <<held, mode, dirty, saved>>
+    /\ UNCHANGED <<held, mode, dirty, saved, w2, w2pg>>
+
+\* copy into ANOTHER workspace (workspace.py:288-292,310-339): every copied entity and property group keeps its
+\* identifier when that identifier is free in the target, otherwise it gets a fresh one; the source is untouched
+Copy2(s, deep) ==
+    /\ Do("Copy2") /\ Writable /\ s \in Att \cap (GS \cup OS) /\ Sub(s) \cap dirty = {}
+    /\ LET S == IF deep THEN Sub(s) ELSE {s}
+           SP == IF deep THEN {q \in PS : pg[q].owner \in S} ELSE {}
+           gen(x) == IF ~w2[W2(x, 0)].on THEN 0 ELSE 1
+           genp(q) == IF w2pg[W2(q, 0)].owner = -1 THEN 0 ELSE 1
+           t(x) == W2(x, gen(x))
+           tp(q) == W2(q, genp(q))
+       IN
+       /\ \A x \in S : ~w2[t(x)].on
+       /\ \A q \in SP : w2pg[tp(q)].owner = -1
+       /\ w2' = [y \in W2E |-> IF \E x \in S : t(x) = y
+                               THEN LET x == CHOOSE z \in S : t(z) = y IN
+                                    [on |-> TRUE, par |-> IF x = s THEN W2Root ELSE t(mem[x].par),
+                                     name |-> mem[x].name, flag |-> mem[x].flag, val |-> mem[x].val]
+                               ELSE w2[y]]
+       /\ w2pg' = [r \in W2P |-> IF \E q \in SP : tp(q) = r
+                                 THEN LET q == CHOOSE z \in SP : tp(z) = r IN
+                                      [owner |-> t(pg[q].owner), name |-> pg[q].name, props |-> {t(d) : d \in pg[q].props}]
+                                 ELSE w2pg[r]]
+       /\ Ok("Copy2", [s |-> s, deep |-> deep, map |-> [x \in S |-> t(x)], pmap |-> [q \in SP |-> tp(q)]], {})
+    /\ UNCHANGED <<mem, kids, pg, reg, fnode, flink, fpg, held, mode, dirty, fopt, saved>>
+
+RECURSIVE W2Down(_, _)
+W2Down(front, seen) ==
+    IF front = {} THEN seen
+    ELSE LET nxt == {y \in W2E : w2[y].on /\ w2[y].par \in front} \ seen IN W2Down(nxt, seen \cup nxt)
+\* ws2.remove_entity(y): frees identifiers in the second workspace so that a later copy can keep them again
+Remove2(y) ==
+    /\ Do("Remove2") /\ y \in W2E /\ w2[y].on /\ w2[y].par = W2Root
+    /\ LET D == W2Down({y}, {y}) IN
+       /\ \A z \in D : w2[z].flag
+       /\ w2' = [z \in W2E |-> IF z \in D THEN NoW2 ELSE w2[z]]
+       /\ w2pg' = [r \in W2P |-> IF w2pg[r].owner \in D THEN NoPG ELSE w2pg[r]]
+       /\ Ok("Remove2", [y |-> y], {})
+    /\ UNCHANGED <<mem, kids, pg, reg, fnode, flink, fpg, held, mode, dirty, fopt, saved>>
 
 \* ======================= close / open
 \* Workspace.close (workspace.py:184-218): reading self.groups purges dead GROUP references only, the root subtree is
@@ -405,12 +476,13 @@ FDownL(fl, front, seen) ==
 
 CloseResult ==                                  \* what the final save leaves in the file
     IF ~Writable THEN [fnode |-> fnode, flink |-> flink, fpg |-> fpg, reg |-> reg, foot |-> {}]
-    ELSE LET relink == {<<mem[x].par, x>> : x \in {y \in Att \cap ES : fnode[y].on /\ <<mem[y].par, y>> \notin flink}}
+    ELSE LET relink == {<<mem[x].par, x>> : x \in {y \in Att \cap ES : <<mem[y].par, y>> \notin flink}}
+             fn1 == [s \in ES |-> IF s \in Att /\ ~fnode[s].on THEN Node(s) ELSE fnode[s]]   \* deferred entities are written
              fl1 == flink \cup relink
              reach1 == FDownL(fl1, {Root}, {Root})
              S == IF "CloseKeepsOrphans" \in Deviations THEN PurgeSet(GS)                  \* as built
-                  ELSE {x \in ES : fnode[x].on /\ x \notin reach1} \cup PurgeSet(GS)      \* intended: no unreachable node survives
-         IN [fnode |-> [s \in ES |-> IF s \in S THEN NoNode ELSE fnode[s]],
+                  ELSE {x \in ES : fn1[x].on /\ x \notin reach1} \cup PurgeSet(GS)        \* intended: no unreachable node survives
+         IN [fnode |-> [s \in ES |-> IF s \in S THEN NoNode ELSE fn1[s]],
              flink |-> {l \in fl1 : l[1] \notin S},
              fpg   |-> DropOwners(fpg, S),
              reg   |-> [s \in ES |-> IF s \in S /\ reg[s] = "dead" THEN "none" ELSE reg[s]],
@@ -433,7 +505,7 @@ Close(how) ==
        /\ reg' = C.reg /\ fnode' = C.fnode /\ flink' = C.flink /\ fpg' = C.fpg
        /\ Ok("Close", [how |-> how], C.foot)
     /\ mode' = "closed" /\ dirty' = {}
-    /\ UNCHANGED <<mem, kids, pg, held, fopt, saved>>
+    /\ UNCHANGED <<mem, kids, pg, held, fopt, saved, w2, w2pg>>
 
 Open(m) ==
     /\ Do("Open") /\ mode = "closed"
@@ -455,7 +527,7 @@ SaveAs ==
        /\ mem' = L.mem /\ kids' = L.kids /\ pg' = L.pg /\ reg' = L.reg
        /\ Ok("SaveAs", [x |-> 0], C.foot)
     /\ held' = {} /\ mode' = "r+" /\ dirty' = {} /\ saved' = TRUE
-    /\ UNCHANGED fopt
+    /\ UNCHANGED <<fopt, w2, w2pg>>
 
 \* shared.utils.fetch_active_workspace(ws, mode=m) used as a context manager (utils.py:95-123): when the workspace is
 \* open and m is contained in its mode ("r" is contained in "r+") the block runs on the workspace as it is; otherwise
@@ -472,7 +544,7 @@ Helper(m, exc) ==
             /\ mem' = L.mem /\ kids' = L.kids /\ pg' = L.pg /\ reg' = L.reg
             /\ held' = {} /\ mode' = "closed" /\ dirty' = {}
             /\ Ok("Helper", [m |-> m, exc |-> exc, reopened |-> TRUE], C.foot)
-            /\ UNCHANGED <<fopt, saved>>
+            /\ UNCHANGED <<fopt, saved, w2, w2pg>>
 
 \* any operation that needs the file on a closed workspace raises Geoh5FileClosedError
 \* (workspace.py:1000-1008,1409-1441) and changes nothing
@@ -494,10 +566,14 @@ Next ==
     \/ \E s \in ES : MoveSame(s) \/ StripOpt(s)
     \/ \E o \in OS, n \in Names : AddDataFails(o, n)
     \/ SaveAs
+    \/ \E x \in GS \cup OS, deep \in BOOLEAN : Copy2(x, deep)
+    \/ \E y \in W2E : Remove2(y)
     \/ \E m \in {"r+", "r"}, exc \in BOOLEAN : Helper(m, exc)
     \/ \E o \in OS, d \in DS, n \in Names : AddToGroup(o, d, n)
     \/ \E p \in PS, d \in DS : RemoveFromGroup(p, d)
     \/ \E p \in PS : RemovePG(p)
+    \/ \E o \in OS, ds \in SUBSET DS : ScrubData(o, ds)
+    \/ \E p \in Cont, n \in Names : CreateDeferred(p, n)
     \/ \E s \in ES : RemoveViaWorkspace(s) \/ RemoveViaParent(s) \/ DropRef(s) \/ LookupDead(s)
     \/ Collect
     \/ \E k \in {"G", "O", "D"} : Purge(k)
@@ -554,6 +630,12 @@ FrozenFile == [][((mode \in {"closed", "r"} /\ mode' \in {"closed", "r"}) => (fn
 \* nothing but a rewrite of a node's own attributes brings back optional attributes a foreign writer omitted
 OptStaysStripped == [][\A s \in ES : (fnode[s].on /\ ~fopt[s] /\ fnode'[s].on /\ fopt'[s]) => s \in last'.foot]_vars
 DirtyOnlyInRW == dirty # {} => mode = "r+"
+\* second workspace: stored parents exist; property groups list children of their owner (C02/C12 on the target file)
+W2WellFormed ==
+    /\ \A y \in W2E : w2[y].on => (w2[y].par = W2Root \/ w2[w2[y].par].on)
+    /\ \A r \in W2P : w2pg[r].owner # -1 => w2[w2pg[r].owner].on /\ \A d \in w2pg[r].props : w2[d].on /\ w2[d].par = w2pg[r].owner
+\* C06: a fresh identifier (g = 1) is only used when the original one (g = 0) is taken in the target
+FreshOnlyWhenTaken == [][\A x \in ES : (~w2[W2(x, 1)].on /\ w2'[W2(x, 1)].on) => w2[W2(x, 0)].on]_vars
 TypeOK ==
     /\ \A s \in ES : Live(s) => mem[s].par \in Cont
     /\ \A c \in Cont : kids[c] \subseteq ES
@@ -562,6 +644,8 @@ TypeOK ==
 \* ======================= export
 ExportState == PrintT(<<"ST", TLCFP(vw), TLCFP(<<vw, 1>>), ToJson([mem |-> mem, kids |-> kids, pg |-> pg, reg |-> reg,
                         fnode |-> fnode, flink |-> flink, fpg |-> fpg, held |-> held, mode |-> mode,
-                        dirty |-> dirty, fopt |-> fopt, saved |-> saved])>>)
+                        dirty |-> dirty, fopt |-> fopt, saved |-> saved,
+                        w2 |-> [y \in {z \in W2E : w2[z].on} |-> w2[y]],
+                        w2pg |-> [r \in {z \in W2P : w2pg[z].owner # -1} |-> w2pg[r]]])>>)
 ExportTrans == PrintT(<<"TR", TLCFP(vw), TLCFP(<<vw, 1>>), TLCFP(vw'), TLCFP(<<vw', 1>>), ToJson(last')>>)
 =============================================================================
